@@ -879,12 +879,15 @@ RELOAD:
 	}
 	vp("rd.deleted", s, 0, 0)
 
+	// cancel the pending calls BEFORE waiting for the running handlers: a
+	// handler may itself be waiting for the reply to a call it made on this
+	// session, and would otherwise wait for a cancellation that waits for it
+	s.cancelPendingCalls(err)
+	vp("rd.cancelled", s, 0, 0)
+
 	s.graceCtxWait()
 	vp("rd.waited", s, 0, 0)
 
-	s.cancelPendingCalls(err)
-
-	vp("rd.cancelled", s, 0, 0)
 	if status == statusActiveClosing || stale {
 		return
 	}
